@@ -330,8 +330,11 @@ class Model:
             keep_any = False
             new = []
             for c in p.ch:
+                v = verdict(c)
+                if v == "skip":  # the node and everything below it goes
+                    continue
                 sub = rec(c)
-                if verdict(c) or sub:
+                if v or sub:
                     new.append(c)
                     keep_any = True
             p.ch = new
